@@ -17,10 +17,20 @@ TYPES = '''<xs:simpleType name="Small"><xs:restriction base="xs:int"><xs:maxIncl
  <xs:simpleType name="USmallBool"><xs:union memberTypes="Small xs:boolean"/></xs:simpleType>'''
 
 
-def schema(nf, ftype, kind, ver):
+def schema(nf, ftype, kind, ver, alt=False):
     tname = ftype if ftype.startswith('U') else 'xs:' + ftype
     attrs = ''.join(f'<xs:attribute name="f{i}" type="{tname}"/>' for i in range(nf))
     fields = ''.join(f'<xs:field xpath="@f{i}"/>' for i in range(nf))
+    if alt:
+        # XSD 1.1: the field attributes are declared only by the type that an xs:alternative selects (no xsi:type in the instance); values still compare in their value space
+        return _cls(ver)(f'''<xs:schema {XS}>{TYPES}<xs:complexType name="KB"><xs:attribute name="t"/></xs:complexType>
+ <xs:complexType name="KT"><xs:complexContent><xs:extension base="KB">{attrs}</xs:extension></xs:complexContent></xs:complexType>
+ <xs:element name="r"><xs:complexType><xs:sequence>
+  <xs:element name="k" minOccurs="0" maxOccurs="unbounded" type="KB"><xs:alternative test="@t='x'" type="KT"/></xs:element>
+  <xs:element name="f" minOccurs="0" maxOccurs="unbounded" type="KB"><xs:alternative test="@t='x'" type="KT"/></xs:element>
+ </xs:sequence></xs:complexType>
+ <xs:{kind} name="K"><xs:selector xpath="k"/>{fields}</xs:{kind}>
+ <xs:keyref name="R" refer="K"><xs:selector xpath="f"/>{fields}</xs:keyref></xs:element></xs:schema>''')
     return _cls(ver)(f'''<xs:schema {XS}>{TYPES}<xs:element name="r"><xs:complexType><xs:sequence>
   <xs:element name="k" minOccurs="0" maxOccurs="unbounded"><xs:complexType>{attrs}</xs:complexType></xs:element>
   <xs:element name="f" minOccurs="0" maxOccurs="unbounded"><xs:complexType>{attrs}</xs:complexType></xs:element>
@@ -43,14 +53,14 @@ def key_table_ok(kind, krows, frows):
 
 
 def eval_template(args):
-    nf, ftype, kind, ver, seed, tier = args
-    s = schema(nf, ftype, kind, ver); rng = random.Random(seed)
+    nf, ftype, kind, ver, seed, tier = args[:6]; alt = len(args) > 6 and args[6]
+    s = schema(nf, ftype, kind, ver, alt); rng = random.Random(seed)
     rows = list(itertools.product([None, 1, 2], repeat=nf))
     bad = []; n = rep = 0
     tables = [(list(k), list(f)) for nk in range(0, 4) for k in itertools.product(rows, repeat=nk) for nfr in range(0, 3) for f in itertools.product(rows, repeat=nfr)]
     if nf == 2 and tier != 'thorough': tables = [t for i, t in enumerate(tables) if i % 7 == seed % 7]
     for krows, frows in tables:
-        def el(tag, r): return f'<{tag} ' + ' '.join(f'f{i}="{rng.choice(LEX[ftype][v])}"' for i, v in enumerate(r) if v is not None) + '/>'
+        def el(tag, r): return f'<{tag} ' + ('t="x" ' if alt else '') + ' '.join(f'f{i}="{rng.choice(LEX[ftype][v])}"' for i, v in enumerate(r) if v is not None) + '/>'
         doc = '<r>' + ''.join(el('k', r) for r in krows) + ''.join(el('f', r) for r in frows) + '</r>'
         if kind == 'unique' and any(any(v is None for v in r) and not all(v is None for v in r) for r in krows): rep += 1; continue
         n += 1
@@ -58,7 +68,7 @@ def eval_template(args):
         except Exception as e: got = f'EXC {type(e).__name__}'
         exp = key_table_ok(kind, krows, frows)
         if got != exp and len(bad) < 3: bad.append(dict(doc=doc, got=got, exp=exp, krows=krows, frows=frows))
-    return dict(template=(nf, ftype, kind, ver), cases=n, reported=rep, bad=bad)
+    return dict(template=(nf, ftype, kind, ver) + ((True,) if alt else ()), cases=n, reported=rep, bad=bad)
 
 
 # ---------------------------------------------------------------- refer across levels: the key is declared on a descendant of the keyref's element
@@ -167,6 +177,7 @@ _IDS = {}
 
 def run(tier, seed, open_findings):
     jobs = [(nf, ft, kind, ver, seed, tier) for nf in (1, 2) for ft in LEX for kind in ('key', 'unique') for ver in ('1.0', '1.1')]
+    jobs += [(1, ft, kind, '1.1', seed, tier, True) for ft in ('integer', 'decimal', 'boolean', 'UIntBool') for kind in ('key', 'unique')]
     res = pmap(eval_template, jobs, procs=16, chunk=1)
     fails = [dict(case=dict(template=list(r['template']), doc=b['doc']), observed=dict(valid=b['got'], keys=b['krows'], refs=b['frows']), required=dict(valid=b['exp'])) for r in res for b in r['bad']]
     cases = sum(r['cases'] for r in res)
@@ -235,6 +246,6 @@ def replay(check_name, case):
     if check_name == 'C08.id_idref':
         s = id_schema(case['ver']); got = s.is_valid(case['doc'])
         return dict(ok=None, observed=dict(valid=got), required='see case') if False else dict(ok=True, observed=dict(valid=got), required='re-run the check for the reference verdict')
-    nf, ft, kind, ver = case['template']
-    s = schema(nf, ft, kind, ver); got = s.is_valid(case['doc'])
+    nf, ft, kind, ver = case['template'][:4]
+    s = schema(nf, ft, kind, ver, len(case['template']) > 4); got = s.is_valid(case['doc'])
     return dict(ok=True, observed=dict(valid=got), required='re-run the check for the reference verdict')
